@@ -11,6 +11,8 @@
 //!   oracle: every tile the operation returns (lookups at all source coordinates and over the grown
 //!   coverage, streams over the grown level boxes) lies inside the advertised pyramid.
 use crate::c02::{gen_pipe, gen_sources};
+use crate::c16::{gen_mb_choices, gen_pm_choices, gen_vt_choices};
+use crate::indep_formats as ind;
 use crate::c06::{norm, norm_pyr, parse_pyr, pyr_str, tiles_str, B, C};
 use crate::common::*;
 use crate::memsrc::MemSource;
@@ -54,6 +56,77 @@ fn payload(c: &C) -> Vec<u8> {
 	format!("tile {},{},{}", c.0, c.1, c.2).into_bytes()
 }
 
+
+/// the direct oracle on an opened reader: advertised boxes vs exact bounding boxes of the returnable
+/// tiles (containment when `exact` is false), every stored tile found inside, nothing outside
+fn judge(out: &mut Out, ctx: &Ctx, kind: &str, origin: &str, rd: &dyn TilesReaderTrait, tiles: &[C], line: &str, exact: bool, nontrivial: bool, case_ans: Option<String>) {
+	let sig = |k: &str| json!({"kind": k, "format": kind, "origin": origin});
+	let kind_is_versatiles = !exact;
+		let adv = rd.get_parameters().bbox_pyramid.clone();
+		out.case(line, &case_ans.unwrap_or_else(|| pyr_str(&adv)), nontrivial);
+		let got = norm_pyr(&adv);
+		let want = exact_boxes(tiles);
+		// (1) exactness / containment of the advertised boxes
+		let bad = (0..32usize).find(|&z| if kind_is_versatiles { !inside(&want[z], &got[z]) } else { got[z] != want[z] });
+		out.oracle(
+			bad.is_none(),
+			&format!("C03 bounds: {kind} advertises {:?} at level {:?}, the bounding box of the stored tiles is {:?}", bad.map(|z| got[z]), bad, bad.map(|z| want[z])),
+			sig("bounds"),
+			json!({"case": line}),
+		);
+		// (2) every stored tile is returned and lies inside; (3) nothing is returned outside
+		let set: BTreeSet<C> = tiles.iter().cloned().collect();
+		let mut e: Option<String> = None;
+		for c in tiles {
+			let r = catch(|| ctx.rt.block_on(rd.get_tile_data(&TileCoord3::new(c.0, c.1, c.2).unwrap())));
+			match r {
+				Ok(Ok(Some(_))) => {
+					if !adv.contains_coord(&TileCoord3::new(c.0, c.1, c.2).unwrap()) {
+						e = Some(format!("stored tile {c:?} is returned but lies outside the advertised coverage"));
+					}
+				}
+				other => e = Some(format!("stored tile {c:?} is not returned: {:?}", other.map(|x| x.map(|y| y.map(|b| b.len())).map_err(|e| e.to_string())))),
+			}
+		}
+		let mut probes = 0u64;
+		for z in 0u8..32 {
+			let m = ((1u64 << z) - 1) as u32;
+			let (x0, y0, x1, y1) = match (got[z as usize], want[z as usize]) {
+				(Some(g), _) => g,
+				(None, Some(w)) => w,
+				_ => continue,
+			};
+			if (x1 - x0) as u64 * (y1 - y0) as u64 > 2500 {
+				continue;
+			}
+			for y in y0.saturating_sub(2)..=((y1 as u64 + 2).min(m as u64) as u32) {
+				for x in x0.saturating_sub(2)..=((x1 as u64 + 2).min(m as u64) as u32) {
+					probes += 1;
+					let c = TileCoord3::new(x, y, z).unwrap();
+					let r = catch(|| ctx.rt.block_on(rd.get_tile_data(&c)));
+					match r {
+						Ok(Ok(Some(_))) => {
+							if !adv.contains_coord(&c) && e.is_none() {
+								e = Some(format!("lookup returns a tile at ({x},{y},{z}) outside the advertised level box {:?}", got[z as usize]));
+							}
+							if !set.contains(&(x, y, z)) && e.is_none() {
+								e = Some(format!("lookup returns a tile at ({x},{y},{z}) that was never stored"));
+							}
+						}
+						Ok(Ok(None)) => {}
+						Ok(Err(_)) | Err(_) => {
+							if e.is_none() {
+								e = Some(format!("lookup at ({x},{y},{z}) failed/panicked"));
+							}
+						}
+					}
+				}
+			}
+		}
+		out.count_n("lookup_probes", probes);
+		out.oracle(e.is_none(), &format!("C03 lookups: {kind}: {}", e.clone().unwrap_or_default()), sig("lookups"), json!({"case": line}));
+}
+
 /// write with the real writer, re-open with the real reader, compare the advertised pyramid
 fn container_case(out: &mut Out, ctx: &mut Ctx, kind: &str, tiles: &[C], generous: bool) {
 	let (format, comp) = if kind == "mbtiles" { (TileFormat::PBF, TileCompression::Gzip) } else { (TileFormat::JSON, TileCompression::Uncompressed) };
@@ -72,7 +145,6 @@ fn container_case(out: &mut Out, ctx: &mut Ctx, kind: &str, tiles: &[C], generou
 	}
 	let ps = path.to_str().unwrap().to_string();
 	let line = format!("C03 cov {kind} {} {}", pyr_str(&src_cover), tiles_str(tiles));
-	let sig = |k: &str| json!({"kind": k, "format": kind});
 	let r = catch(|| {
 		ctx.rt.block_on(async {
 			let mut s = src.clone();
@@ -96,71 +168,7 @@ fn container_case(out: &mut Out, ctx: &mut Ctx, kind: &str, tiles: &[C], generou
 			out.case(&line, "err", nontrivial);
 			out.oracle(false, &format!("C03 open: writing/re-opening the {kind} container failed: {}", trunc(&format!("{e:#}"), 160)), json!({"kind": "open_err", "format": kind, "gaps": gaps, "level31": levels_used.contains(&31)}), json!({"case": line}));
 		}
-		Ok(Ok(rd)) => {
-			let adv = rd.get_parameters().bbox_pyramid.clone();
-			out.case(&line, &pyr_str(&adv), nontrivial);
-			let got = norm_pyr(&adv);
-			let want = exact_boxes(tiles);
-			// (1) exactness / containment of the advertised boxes
-			let bad = (0..32usize).find(|&z| if kind == "versatiles" { !inside(&want[z], &got[z]) } else { got[z] != want[z] });
-			out.oracle(
-				bad.is_none(),
-				&format!("C03 bounds: {kind} advertises {:?} at level {:?}, the bounding box of the stored tiles is {:?}", bad.map(|z| got[z]), bad, bad.map(|z| want[z])),
-				sig("bounds"),
-				json!({"case": line}),
-			);
-			// (2) every stored tile is returned and lies inside; (3) nothing is returned outside
-			let set: BTreeSet<C> = tiles.iter().cloned().collect();
-			let mut e: Option<String> = None;
-			for c in tiles {
-				let r = catch(|| ctx.rt.block_on(rd.get_tile_data(&TileCoord3::new(c.0, c.1, c.2).unwrap())));
-				match r {
-					Ok(Ok(Some(_))) => {
-						if !adv.contains_coord(&TileCoord3::new(c.0, c.1, c.2).unwrap()) {
-							e = Some(format!("stored tile {c:?} is returned but lies outside the advertised coverage"));
-						}
-					}
-					other => e = Some(format!("stored tile {c:?} is not returned: {:?}", other.map(|x| x.map(|y| y.map(|b| b.len())).map_err(|e| e.to_string())))),
-				}
-			}
-			let mut probes = 0u64;
-			for z in 0u8..32 {
-				let m = ((1u64 << z) - 1) as u32;
-				let (x0, y0, x1, y1) = match (got[z as usize], want[z as usize]) {
-					(Some(g), _) => g,
-					(None, Some(w)) => w,
-					_ => continue,
-				};
-				if (x1 - x0) as u64 * (y1 - y0) as u64 > 2500 {
-					continue;
-				}
-				for y in y0.saturating_sub(2)..=((y1 as u64 + 2).min(m as u64) as u32) {
-					for x in x0.saturating_sub(2)..=((x1 as u64 + 2).min(m as u64) as u32) {
-						probes += 1;
-						let c = TileCoord3::new(x, y, z).unwrap();
-						let r = catch(|| ctx.rt.block_on(rd.get_tile_data(&c)));
-						match r {
-							Ok(Ok(Some(_))) => {
-								if !adv.contains_coord(&c) && e.is_none() {
-									e = Some(format!("lookup returns a tile at ({x},{y},{z}) outside the advertised level box {:?}", got[z as usize]));
-								}
-								if !set.contains(&(x, y, z)) && e.is_none() {
-									e = Some(format!("lookup returns a tile at ({x},{y},{z}) that was never stored"));
-								}
-							}
-							Ok(Ok(None)) => {}
-							Ok(Err(_)) | Err(_) => {
-								if e.is_none() {
-									e = Some(format!("lookup at ({x},{y},{z}) failed/panicked"));
-								}
-							}
-						}
-					}
-				}
-			}
-			out.count_n("lookup_probes", probes);
-			out.oracle(e.is_none(), &format!("C03 lookups: {kind}: {}", e.clone().unwrap_or_default()), sig("lookups"), json!({"case": line}));
-		}
+		Ok(Ok(rd)) => judge(out, ctx, kind, "writer", rd.as_ref(), tiles, &line, kind != "versatiles", nontrivial, None),
 	}
 	let _ = std::fs::remove_file(&path);
 	let _ = std::fs::remove_dir_all(&path);
@@ -268,6 +276,190 @@ fn gen_tileset(rng: &mut Rng) -> Vec<C> {
 	tiles
 }
 
+
+// ---------------------------------------------------------------------------------------------
+// containers from the INDEPENDENT encoders (harness/src/indep_formats.rs, written from the format
+// specs): layouts the project's own writers never produce
+// ---------------------------------------------------------------------------------------------
+/// tile set made of Hilbert runs (consecutive PMTiles ids with one payload each), incl. runs that
+/// cross a zoom boundary, plus a few single tiles; returns (tile map, runs as (id, length))
+fn gen_runs(rng: &mut Rng) -> (ind::TileMap, Vec<(u64, u64)>) {
+	let mut tiles = ind::TileMap::new();
+	let mut ids: BTreeMap<u64, u64> = BTreeMap::new(); // id -> payload no
+	let nruns = rng.range(1, 4);
+	for k in 0..nruns {
+		let z = match rng.below(8) {
+			0 => rng.range(0, 2),
+			1..=5 => rng.range(2, 9),
+			_ => rng.range(10, 20),
+		} as u8;
+		let n = 1u64 << (2 * z as u32);
+		let len = match rng.below(6) {
+			0 => 1,
+			1 => rng.range(2, 3),
+			2..=4 => rng.range(4, 24),
+			_ => rng.range(25, 70),
+		};
+		let start = match rng.below(6) {
+			// ends exactly at / runs across the boundary to the next zoom level
+			0 => ind::level_base(z + 1) - rng.range(1, len.min(n)),
+			1 => ind::level_base(z + 1) - len.min(n),
+			2 => ind::level_base(z),
+			_ => ind::level_base(z) + rng.below(n),
+		};
+		for i in 0..len {
+			ids.entry(start + i).or_insert(k);
+		}
+	}
+	for _ in 0..rng.below(4) {
+		let z = rng.range(0, 12) as u8;
+		ids.entry(ind::level_base(z) + rng.below(1u64 << (2 * z as u32))).or_insert(100 + rng.below(3));
+	}
+	let mut runs: Vec<(u64, u64, u64)> = vec![];
+	for (id, pno) in &ids {
+		let c = ind::tile_coord(*id).unwrap();
+		tiles.insert(c, format!("payload-{pno}").into_bytes());
+		match runs.last_mut() {
+			Some(l) if l.0 + l.1 == *id && l.2 == *pno => l.1 += 1,
+			_ => runs.push((*id, 1, *pno)),
+		}
+	}
+	(tiles, runs.into_iter().map(|r| (r.0, r.1)).collect())
+}
+
+fn map_of(tiles: &[C], rng: &mut Rng, few_payloads: bool) -> ind::TileMap {
+	tiles.iter().map(|c| ((c.2, c.0, c.1), if few_payloads { format!("p{}", rng.below(2)).into_bytes() } else { payload(c) })).collect()
+}
+fn coords_of(m: &ind::TileMap) -> Vec<C> {
+	let mut v: Vec<C> = m.keys().map(|(z, x, y)| (*x, *y, *z)).collect();
+	v.sort_by_key(|c| (c.2, c.0, c.1));
+	v
+}
+
+fn indep_case(out: &mut Out, ctx: &mut Ctx, rng: &mut Rng, kind: &str) {
+	ctx.n += 1;
+	let path = ctx.dir.join(format!("i{}.{kind}", ctx.n));
+	let ps = path.to_str().unwrap().to_string();
+	let mut exact = true;
+	let (tiles, line): (Vec<C>, String) = match kind {
+		"pmtiles" => {
+			let (map, runs) = if rng.chance(3, 4) {
+				gen_runs(rng)
+			} else {
+				let t = gen_tileset(rng);
+				let m = map_of(&t, rng, true);
+				let mut ids: Vec<u64> = m.keys().map(|(z, x, y)| ind::tile_id(*z, *x, *y).unwrap()).collect();
+				ids.sort();
+				(m, ids.into_iter().map(|i| (i, 1)).collect())
+			};
+			let mut ch = gen_pm_choices(rng);
+			ch.merge_runs = true;
+			ch.tcomp = 1;
+			let enc = ind::encode_pmtiles(&map, &ch, rng);
+			std::fs::write(&path, &enc.bytes).unwrap();
+			out.count(&format!("indep_pmtiles_levels_{}", enc.levels_used));
+			out.count_n("indep_pmtiles_max_run", enc.max_run);
+			if enc.max_run > 1 {
+				out.count("indep_pmtiles_with_runs");
+			}
+			if enc.shared_offsets > 0 {
+				out.count("indep_pmtiles_shared_offsets");
+			}
+			(coords_of(&map), format!("C03 runs {}", runs.iter().map(|(i, n)| format!("{i}:{n}")).collect::<Vec<_>>().join(";")))
+		}
+		"versatiles" => {
+			let t = gen_tileset(rng);
+			let map = map_of(&t, rng, false);
+			let ch = gen_vt_choices(rng);
+			let enc = ind::encode_versatiles(&map, &ch, rng);
+			std::fs::write(&path, &enc.bytes).unwrap();
+			exact = false; // declared block ranges may be padded beyond the tiles
+			out.count(&format!("indep_versatiles_range_mode_{}", ch.range_mode));
+			let blocks: Vec<String> = enc.blocks.iter().map(|b| { let g = b.global(); format!("{}:{},{},{},{}", b.z, g.0, g.1, g.2, g.3) }).collect();
+			(coords_of(&map), format!("C03 blocks {}", blocks.join(";")))
+		}
+		"mbtiles" => {
+			let t: Vec<C> = gen_tileset(rng);
+			let map = map_of(&t, rng, false);
+			let ch = gen_mb_choices(rng);
+			if let Err(e) = ind::encode_mbtiles(&path, &ind::tiles_to_rows(&map), &ch, rng) {
+				out.notes.push(format!("independent mbtiles encoder failed: {e}"));
+				return;
+			}
+			(coords_of(&map), format!("C03 cov mbtiles 0:1,1,0,0 {}", tiles_str(&coords_of(&map))))
+		}
+		_ => {
+			// tar: `./`-prefixed member names, directory members, meta file
+			let t = gen_tileset(rng);
+			let map = map_of(&t, rng, false);
+			let dot = rng.chance(2, 3);
+			let mut members = vec![];
+			if rng.chance(1, 2) {
+				members.push(ind::TarMember::file(if dot { "./meta.json" } else { "meta.json" }, b"{}"));
+			}
+			for ((z, x, y), p) in &map {
+				let mut m = ind::TarMember::file(&format!("{}{z}/{x}/{y}.png", if dot { "./" } else { "" }), p);
+				m.use_prefix = rng.chance(1, 4);
+				members.push(m);
+			}
+			match ind::encode_tar(&members, rng.range(2, 4) as usize) {
+				Ok(b) => std::fs::write(&path, b).unwrap(),
+				Err(e) => {
+					out.notes.push(format!("independent tar encoder failed: {e}"));
+					return;
+				}
+			}
+			if dot {
+				out.count("indep_tar_dot_prefix");
+			}
+			(coords_of(&map), format!("C03 cov tar 0:1,1,0,0 {}", tiles_str(&coords_of(&map))))
+		}
+	};
+	out.count(&format!("indep_{kind}"));
+	let r = catch(|| ctx.rt.block_on(get_reader(&ps)));
+	let nontrivial = tiles.len() > 1;
+	match r {
+		Ok(Ok(rd)) => judge(out, ctx, kind, "indep", rd.as_ref(), &tiles, &line, exact, nontrivial, None),
+		Ok(Err(e)) => {
+			out.case(&line, "err", nontrivial);
+			out.oracle(false, &format!("C03 open: spec-valid {kind} container from the independent encoder cannot be opened: {}", trunc(&format!("{e:#}"), 160)), json!({"kind": "open_err", "format": kind, "origin": "indep"}), json!({"case": line, "file_hex": if std::fs::metadata(&path).map_or(0, |m| m.len()) < 4000 { ind::hexs(&std::fs::read(&path).unwrap_or_default()) } else { "too large".into() }}));
+		}
+		Err(p) => {
+			out.case(&line, "panic", nontrivial);
+			out.oracle(false, &format!("C03 open: opening a spec-valid {kind} container from the independent encoder panicked: {}", trunc(&p, 160)), json!({"kind": "open_panic", "format": kind, "origin": "indep"}), json!({"case": line}));
+		}
+	}
+	let _ = std::fs::remove_file(&path);
+}
+
+/// replay of `C03 runs id:n;…` – one payload per run, written with run lengths by the independent encoder
+fn replay_runs(out: &mut Out, ctx: &mut Ctx, spec: &str) {
+	let mut map = ind::TileMap::new();
+	for (k, t) in spec.split(';').enumerate() {
+		let (a, b) = t.split_once(':').unwrap();
+		let (id, n): (u64, u64) = (a.parse().unwrap(), b.parse().unwrap());
+		for i in 0..n {
+			map.insert(ind::tile_coord(id + i).unwrap(), format!("payload-{k}").into_bytes());
+		}
+	}
+	let mut ch = ind::PmChoices::plain(1, 1);
+	ch.merge_runs = true;
+	let enc = ind::encode_pmtiles(&map, &ch, &mut Rng::new(1));
+	ctx.n += 1;
+	let path = ctx.dir.join(format!("r{}.pmtiles", ctx.n));
+	std::fs::write(&path, &enc.bytes).unwrap();
+	let line = format!("C03 runs {spec}");
+	let tiles = coords_of(&map);
+	match catch(|| ctx.rt.block_on(get_reader(path.to_str().unwrap()))) {
+		Ok(Ok(rd)) => judge(out, ctx, "pmtiles", "indep", rd.as_ref(), &tiles, &line, true, true, None),
+		_ => {
+			out.case(&line, "err", true);
+			out.oracle(false, "C03 open: pmtiles container with run lengths cannot be opened", json!({"kind": "open_err", "format": "pmtiles", "origin": "indep"}), json!({"case": line}));
+		}
+	}
+	let _ = std::fs::remove_file(&path);
+}
+
 // ---------------------------------------------------------------------------------------------
 // pipelines
 // ---------------------------------------------------------------------------------------------
@@ -345,7 +537,7 @@ fn pipeline_case(out: &mut Out, rt: &tokio::runtime::Runtime, id: &mut Ident, w:
 pub fn run(args: &Args) {
 	quiet_panics();
 	let mut out = Out::new(&args.out);
-	out.rule = "containers: tile sets (single tiles, irregular clusters whose extreme rows avoid the first/middle/last column, random sparse clusters; levels 0..31 incl. border coordinates 0 and 2^z-1, contiguous levels and zoom gaps; exact or generous source pyramid) written with the real mbtiles/pmtiles/tar/directory/versatiles writers and re-opened with the real readers: advertised pyramid vs model and vs the exact per-level bounding box (equality; containment for versatiles), lookups of all stored tiles and over every advertised box grown by 2; pipelines: 2-4 sources (memory and containers) under random pipelines (filters, overlay, merge, update) built by the real PipelineFactory: coverage vs model, every returned tile inside the advertised pyramid. non-trivial = more than one tile / pipeline with at least one operation".into();
+	out.rule = "containers: tile sets (single tiles, irregular clusters whose extreme rows avoid the first/middle/last column, random sparse clusters; levels 0..31 incl. border coordinates 0 and 2^z-1, contiguous levels and zoom gaps; exact or generous source pyramid) written with the real mbtiles/pmtiles/tar/directory/versatiles writers and re-opened with the real readers: advertised pyramid vs model and vs the exact per-level bounding box (equality; containment for versatiles), lookups of all stored tiles and over every advertised box grown by 2; pipelines: 2-4 sources (memory and containers) under random pipelines (filters, overlay, merge, update) built by the real PipelineFactory: coverage vs model, every returned tile inside the advertised pyramid. independent encoders (harness/src/indep_formats.rs): PMTiles with run lengths > 1 (Hilbert runs of 1..70 ids, runs ending at / crossing a zoom boundary), shared offsets, 1-3 directory levels; versatiles with padded/full block ranges, shuffled sparse block index; mbtiles (view/table, shuffled rows, zoom gaps); tar with ./-prefixed and prefix-field names - same oracle. non-trivial = more than one tile / pipeline with at least one operation".into();
 	let dir = std::fs::canonicalize(&args.out).unwrap().join("c03files");
 	std::fs::create_dir_all(&dir).unwrap();
 	let rt = tokio::runtime::Builder::new_multi_thread().worker_threads(4).enable_all().build().unwrap();
@@ -368,6 +560,8 @@ pub fn run(args: &Args) {
 				let exact = exact_boxes(&tiles);
 				let generous = t[3] != "-" && norm_pyr(&parse_pyr(t[3])) != exact;
 				container_case(&mut out, &mut ctx, t[2], &tiles, generous);
+			} else if t.len() == 3 && t[0] == "C03" && t[1] == "runs" {
+				replay_runs(&mut out, &mut ctx, t[2]);
 			} else if t.len() >= 4 && t[0] == "C03p" {
 				let specs = crate::tsrc::parse_env(t[3]);
 				let w = World::build(&ctx.rt, &dir, &specs);
@@ -404,6 +598,11 @@ pub fn run(args: &Args) {
 			let generous = kind == "versatiles" && i % 2 == 1;
 			container_case(&mut out, &mut ctx, kind, &tiles, generous);
 		}
+	}
+	// spec-valid containers from the independent encoders
+	for i in 0..args.n(240, 3000) {
+		let kind = ["pmtiles", "pmtiles", "pmtiles", "versatiles", "mbtiles", "tar"][i % 6];
+		indep_case(&mut out, &mut ctx, &mut rng, kind);
 	}
 	// pipelines
 	let mut next = 1u64;
